@@ -6,6 +6,7 @@ from numpy.polynomial.legendre import leggauss
 from scipy.special import spherical_jn
 
 import gen
+import history
 from common import I, L, ModelRaise, exc_kind
 
 RULE = ("shapes: gen.convex_solid (as ConvexPolyhedron and as Polyhedron copy), boxes with known frame, voxel solids "
@@ -14,8 +15,10 @@ RULE = ("shapes: gen.convex_solid (as ConvexPolyhedron and as Polyhedron copy), 
         "spheres with centres; q: |q|*size in {0} U [1e-3,30] in random directions, exactly along face normals, "
         "perpendicular to edges, parallel to edges, along axes, at the ends 1e-3 and 30 of the |q|*size range, batches of "
         "size 1.. mixing zero / in-plane-zero / generic; density != 1 and omitted; the q argument also as (3,) array, "
-        "nested list, flat list, empty batch (argument glue); in-place histories (centroid / volume / area setters) before "
-        "the call; distinct = distinct (shape, q batch); non-trivial = at least one non-zero q")
+        "nested list, flat list, empty batch (argument glue); a third of the shapes reached through history.via_history "
+        "(warmed scaled/shifted copy brought to the target by its own mutators); own history clause: form factor -> 1..3 "
+        "mutators (centroid, every _rescale-based size setter, size setter last or first, re-queried in between) -> form "
+        "factor; distinct = distinct (shape, q batch); non-trivial = at least one non-zero q")
 ASSUMPTIONS = [
     "exact Fourier transforms are computed independently of the code's Stokes reduction: tetrahedra/triangles by the "
     "Hermite-Genocchi divided difference of exp (Opitz matrix exponential, self-validated against Gauss-Legendre "
@@ -575,6 +578,8 @@ def eval_solid(ctx, case):
     rmax = float(np.max(np.linalg.norm(v, axis=1)))
     try:
         p = build_solid(case)
+        if case.get("q_classes") != ["witness"]:
+            p, how = history.maybe_via_history(p, history.rng_for({"v": case["vertices"], "m": case.get("mseed", 0)}), 0.33, ctx)
         eqs = np.array(p._equations, dtype=float).copy()
         faces = [np.array(p.vertices[f], dtype=float) for f in p.faces]
         vol_impl = float(p.volume)
@@ -866,25 +871,61 @@ def solid_certificate(ctx, cls, case, p, Q, rho, F, E, tol, win, zw):
                  case, {"i": i, "q": Q[i], "impl": F[i], "exact": E3[i]})
 
 
+SIZE_SETTERS_3D = ("volume", "surface_area", "insphere_radius", "circumsphere_radius",
+                   "minimal_centered_bounding_sphere_radius", "maximal_centered_bounded_sphere_radius")
+
+
 def history_solid(ctx, cls, case, Q, rho):
-    """in-place history (centroid setter, volume setter) before the call: the amplitude must be that of a newly
-    constructed shape with the same vertices and faces"""
+    """query -> mutate -> query on ONE object: the form factor is evaluated first (whatever it caches is cached for the
+    old geometry), then the shape is changed in place by 1..3 public mutators (centroid setter, and every size setter
+    that goes through _rescale: volume, surface_area, *_radius), re-queried in between with probability 0.6, with a
+    size setter LAST in half of the cases and FIRST in the other half; the final amplitude must be that of a newly
+    constructed shape with the same vertices and faces."""
     from coxeter.shapes import ConvexPolyhedron, Polyhedron
     rng = np.random.default_rng(case.get("mseed", 0) + 11)
+    steps = []
     try:
         p = build_solid(case)
         size = gen.diameter(np.array(p.vertices, dtype=float))
-        steps = []
-        for _ in range(int(rng.integers(1, 4))):
-            if rng.random() < 0.5:
-                t = rng.normal(size=3) * size
-                p.centroid = np.array(p.centroid, dtype=float) + t
-                steps.append("centroid")
-            else:
-                s = float(np.exp(rng.uniform(-0.7, 0.7)))
-                p.volume = float(p.volume) * s ** 3
-                steps.append("volume")
-        ctx.count("history:" + "+".join(steps))
+        qw = np.vstack([Q[:2], rng.normal(size=(1, 3)) / size])
+        p.compute_form_factor_amplitude(qw.copy(), density=rho)            # the first query
+        steps.append("query")
+
+        def resize():
+            for _ in range(8):
+                name = SIZE_SETTERS_3D[int(rng.integers(len(SIZE_SETTERS_3D)))]
+                try:
+                    cur = float(getattr(p, name))
+                    if not (np.isfinite(cur) and cur > 0):
+                        continue
+                    k = float(np.exp(rng.uniform(-0.7, 0.7)))
+                    setattr(p, name, cur * k)
+                    steps.append(name)
+                    return
+                except Exception:      # noqa: BLE001  no such ball for this shape / setter not offered: C08/C13, not C12
+                    continue
+            p.volume = float(p.volume) * 1.7
+            steps.append("volume")
+
+        def move():
+            p.centroid = np.array(p.centroid, dtype=float) + rng.normal(size=3) * size
+            steps.append("centroid")
+
+        n = int(rng.integers(1, 4))
+        size_last = bool(rng.random() < 0.5)
+        plan = []
+        for k in range(n):
+            plan.append(resize if rng.random() < 0.6 else move)
+        if size_last:
+            plan[-1] = resize
+        else:
+            plan[0] = resize
+        for k, f in enumerate(plan):
+            f()
+            if k < len(plan) - 1 and rng.random() < 0.6:
+                p.compute_form_factor_amplitude(qw.copy(), density=rho)
+                steps.append("query")
+        ctx.count("history:" + ("size-last" if plan[-1] is resize else "move-last"))
         Fh = np.array(p.compute_form_factor_amplitude(Q.copy(), density=rho), dtype=complex)
         V = np.array(p.vertices, dtype=float).copy()
         faces = [list(map(int, f)) for f in p.faces]
@@ -892,8 +933,8 @@ def history_solid(ctx, cls, case, Q, rho):
         Ff = np.array(fresh.compute_form_factor_amplitude(Q.copy(), density=rho), dtype=complex)
         vol = float(fresh.volume)
     except Exception as e:
-        ctx.fail("%s.compute_form_factor_amplitude:raises" % cls, "raised %s after an in-place history" % exc_kind(e), case,
-                 repr(e))
+        ctx.fail("%s.compute_form_factor_amplitude:raises" % cls, "raised %s after an in-place history %s" % (exc_kind(e), steps),
+                 case, repr(e))
         return
     rmax = float(np.max(np.linalg.norm(V, axis=1)))
     geom = tri_geom(fan_tris(V, [list(map(int, f)) for f in fresh.faces]))
@@ -903,7 +944,7 @@ def history_solid(ctx, cls, case, Q, rho):
     if np.any(bad):
         i = int(np.argmax(bad))
         ctx.fail("%s.compute_form_factor_amplitude:history" % cls,
-                 "after in-place changes (%s) the amplitude differs from that of a newly constructed shape with the same "
+                 "after the in-place history %s the amplitude differs from that of a newly constructed shape with the same "
                  "vertices" % "+".join(steps), case, {"i": i, "q": Q[i], "after_history": Fh[i], "fresh": Ff[i], "steps": steps})
 
 
@@ -916,13 +957,29 @@ def history_polygon(ctx, case, make, V, normal, Q, rho, tol, win, near):
     try:
         p = make(V, normal)
         size = gen.diameter(np.asarray(V, dtype=float))
+        p.compute_form_factor_amplitude(Q[:2].copy(), density=rho)          # query first
         t = rng.normal(size=3) * size
         nrm = np.array(p.normal, dtype=float)
         t = t - (t @ nrm) * nrm if rng.random() < 0.5 else t
-        p.centroid = np.array(p.centroid, dtype=float) + t
         s = float(np.exp(rng.uniform(-0.5, 0.5)))
-        p.area = float(p.area) * s * s
-        ctx.count("history:polygon:centroid+area")
+        sname = ["area", "perimeter"][int(rng.integers(2))]
+
+        def resize():
+            if sname == "area":
+                p.area = float(p.area) * s * s
+            else:
+                p.perimeter = float(p.perimeter) * s
+
+        if rng.random() < 0.5:
+            p.centroid = np.array(p.centroid, dtype=float) + t
+            p.compute_form_factor_amplitude(Q[:1].copy(), density=rho)
+            resize()
+            ctx.count("history:polygon:size-last")
+        else:
+            resize()
+            p.compute_form_factor_amplitude(Q[:1].copy(), density=rho)
+            p.centroid = np.array(p.centroid, dtype=float) + t
+            ctx.count("history:polygon:move-last")
         Fh = np.array(p.compute_form_factor_amplitude(Q.copy(), density=rho), dtype=complex)
         W = np.array(p.vertices, dtype=float).copy()
         Ff = np.array(make(W, normal).compute_form_factor_amplitude(Q.copy(), density=rho), dtype=complex)
@@ -954,6 +1011,8 @@ def eval_polygon(ctx, case):
     except Exception as e:
         ctx.count("polygon:constructor-raised:" + exc_kind(e))     # constructor validity is C15
         return
+    if case.get("q_classes") != ["witness"]:
+        p, how = history.maybe_via_history(p, history.rng_for({"v": case["vertices"], "m": case.get("mseed", 0)}), 0.33, ctx)
     rmax = float(np.max(np.linalg.norm(V, axis=1)))
     a = V[1:-1] - V[0]
     b = V[2:] - V[0]
@@ -1047,6 +1106,7 @@ def eval_sphere(ctx, case):
     vol = 4.0 / 3.0 * np.pi * r ** 3
     try:
         s = Sphere(r, c.copy())
+        s, how = history.maybe_via_history(s, history.rng_for({"r": r, "c": case["center"], "m": case.get("mseed", 0)}), 0.33, ctx)
         F = np.array(s.compute_form_factor_amplitude(Q.copy(), density=rho), dtype=complex)
     except Exception as e:
         ctx.fail("Sphere.compute_form_factor_amplitude:raises", "raised %s" % exc_kind(e), case, repr(e))
@@ -1086,7 +1146,9 @@ def eval_sphere(ctx, case):
                Q, rho, tol, near)
     try:                                              # in-place history: setters, then the same as a new Sphere
         s2 = Sphere(1.0, np.zeros(3))
+        s2.compute_form_factor_amplitude(Q[:1].copy(), density=rho)
         s2.centroid = c.copy()
+        s2.compute_form_factor_amplitude(Q[:1].copy(), density=rho)
         s2.volume = vol
         Fh = np.array(s2.compute_form_factor_amplitude(Q.copy(), density=rho), dtype=complex)
         if np.any((np.abs(Fh - F) > 4 * tol) & ~near):
@@ -1192,7 +1254,7 @@ def run(ctx):
         ctx.case(case)
         eval_case(ctx, case)
     mix = (["convex"] * 5 + ["box"] * 2 + ["voxel"] * 2 + ["prism"] * 2 + ["polygon"] * 6 + ["sphere"] * 3)
-    n = ctx.budget(200, 1800)
+    n = ctx.budget(180, 1600)
     for i in range(n):
         case = make_case(ctx, mix[i % len(mix)])
         ctx.case(case, nontrivial=bool(np.any(np.array(case["q"]) != 0)))
